@@ -171,6 +171,36 @@ def _ambiguous(fmt, rep, d):
     return None
 
 
+def _public_views(imp, pt, what, bucket, case):
+    """Every public-point export of an imported object, in both encodings, against the reference serialisation, and
+    the second hop: the exported encodings import to the same point (whatever form the object was imported from)."""
+    from ref import ec
+    K = _lib()
+    c, u = ec.ser_compressed(pt), ec.ser_uncompressed(pt)
+    for name, f, exp in [('public_compressed_hex', lambda: imp.public_compressed_hex, c.hex()),
+                         ('public_compressed_byte', lambda: imp.public_compressed_byte, c),
+                         ('public_uncompressed_hex', lambda: imp.public_uncompressed_hex, u.hex()),
+                         ('public_uncompressed_byte', lambda: imp.public_uncompressed_byte, u),
+                         ('x', lambda: imp.x, pt[0]), ('y', lambda: imp.y, pt[1])]:
+        try:
+            got = f()
+        except Exception as e:
+            raise Discrepancy(bucket + '.views.raises', '%s: export %s raised %r' % (what, name, e), case)
+        if got != exp:
+            raise Discrepancy(bucket + '.views.' + name, '%s: %s is %s, reference %s' %
+                              (what, name, _short(got), _short(exp)), case)
+    for name, rep, exp_c in [('public_uncompressed_hex', u.hex(), False), ('public_uncompressed_byte', u, False),
+                             ('public_compressed_hex', c.hex(), True)]:
+        try:
+            again = K.Key(getattr(imp, name))
+            got = (bool(again.is_private), tuple(again.public_point()), again.compressed)
+        except Exception as e:
+            raise Discrepancy(bucket + '.second_hop.raises', '%s: Key(<its %s>) raised %r' % (what, name, e), case)
+        if got != (False, (pt[0], pt[1]), exp_c):
+            raise Discrepancy(bucket + '.second_hop.' + name, '%s: Key(<its %s>) gives (is_private, point, compressed)'
+                              ' = %s, expected %s' % (what, name, _short(got), _short((False, pt, exp_c))), case)
+
+
 def _import_plain(ctx, spec, d, pt, compressed, net, case):
     from ref import ec
     K = _lib()
@@ -253,6 +283,7 @@ def _import_plain(ctx, spec, d, pt, compressed, net, case):
             return bad('network', net)
     elif sharing is not None and got['network'] not in sharing:
         return bad('network', sharing)
+    _public_views(imp, pt, what, 'import.plain', case)
     return False
 
 
@@ -340,6 +371,7 @@ def _check_xfields(imp, x, private, what, ctx, case, exp_net, net_set, exp_wt, e
         if g != want:
             raise Discrepancy('import.xkey.' + field, '%s: %s is %s, expected %s' % (what, field, _short(got[field]),
                                                                                      _short(want)), case)
+    _public_views(imp, x.point, what, 'import.xkey', case)
     if exp_net is None and got['network'] not in net_set:
         raise Discrepancy('import.xkey.network', '%s: network is %s, the prefix belongs to %r' %
                           (what, got['network'], net_set), case)
@@ -624,6 +656,9 @@ def _secret_strategy():
         b31.map(lambda b: int.from_bytes(b + b'\x01', 'big')),                       # last byte 01
         st.tuples(st.sampled_from([2, 3, 4, 0x80, 0xef]), b31).map(lambda t: int.from_bytes(bytes([t[0]]) + t[1], 'big')),
         st.integers(10 ** 60, 10 ** 70),                                            # short decimal strings
+        # public points with leading zero bytes / nibbles in y or x (fixed-width padding of each coordinate)
+        st.sampled_from([122, 130, 533, 544, 649, 726, 809, 832, 13, 23, 35, 41, 42, 59, 61, 99,
+                         153, 246, 886, 1158, 1417, 1436, 45, 60, 66, 119, 133, 138]),
     ).filter(lambda v: 1 <= v < n)
 
 
